@@ -120,6 +120,7 @@ def build(be, items, n, cls, mode, variant):
         for j in range(h, len(items)):
             add(b, j)
         circ = a.compose(b)
+        circ._verif_other = (b, h)
     else:
         circ = new()
         for j in range(len(items)):
